@@ -3,12 +3,20 @@
 package core
 
 import (
+	"context"
 	"sync/atomic"
 
 	"github.com/ethereum/go-ethereum/common"
+	"github.com/ethereum/go-ethereum/common/lru"
+	"github.com/ethereum/go-ethereum/consensus/beacon"
+	"github.com/ethereum/go-ethereum/consensus/ethash"
 	"github.com/ethereum/go-ethereum/core/state"
+	"github.com/ethereum/go-ethereum/core/stateless"
 	"github.com/ethereum/go-ethereum/core/types"
+	"github.com/ethereum/go-ethereum/core/vm"
 	"github.com/ethereum/go-ethereum/params"
+	"github.com/ethereum/go-ethereum/trie"
+	"github.com/ethereum/go-ethereum/triedb"
 )
 
 // White-box accessors for sim/execsim (added through go build -overlay, never part of
@@ -46,4 +54,32 @@ func (b *BlockGen) VerifExecsimFits(gasLimit uint64) bool {
 		return b.gasPool.CheckGasAmsterdam(min(gasLimit, params.MaxTxGas), gasLimit) == nil
 	}
 	return b.gasPool.Gas() >= gasLimit
+}
+
+// VerifExecsimStatelessDBError repeats the steps of ExecuteStateless on the given witness and
+// returns what ExecuteStateless computes plus the error recorded on the state database during
+// execution (which ExecuteStateless itself does not look at). Used only to classify a result
+// that the real ExecuteStateless already produced; never as the system under test.
+func VerifExecsimStatelessDBError(ctx context.Context, config *params.ChainConfig, vmconfig vm.Config, block *types.Block, witness *stateless.Witness) (stateRoot, receiptRoot common.Hash, dbErr error, err error) {
+	memdb := witness.MakeHashDB()
+	db, err := state.New(witness.Root(), state.NewDatabase(triedb.NewDatabase(memdb, triedb.HashDefaults), state.NewCodeDB(memdb)))
+	if err != nil {
+		return common.Hash{}, common.Hash{}, nil, err
+	}
+	chain := &HeaderChain{
+		config:      config,
+		chainDb:     memdb,
+		headerCache: lru.NewCache[common.Hash, *types.Header](256),
+		engine:      beacon.New(ethash.NewFaker()),
+	}
+	res, err := NewStateProcessor(chain).Process(ctx, block, db, nil, nil, vmconfig, nil)
+	if err != nil {
+		return common.Hash{}, common.Hash{}, db.Error(), err
+	}
+	if err = NewBlockValidator(config, nil).ValidateState(block, db, res, true); err != nil {
+		return common.Hash{}, common.Hash{}, db.Error(), err
+	}
+	receiptRoot = types.DeriveSha(res.Receipts, trie.NewStackTrie(nil))
+	stateRoot = db.IntermediateRoot(config.Rules(block.Number(), block.Difficulty().Sign() == 0, block.Time()))
+	return stateRoot, receiptRoot, db.Error(), nil
 }
